@@ -44,7 +44,9 @@ def run(s):
     s.hist['subset_cases_total'] = idx
     K.story_grid(s, 3, layouts=('between',), pretties=(False,), full=False)
     K.story_grid(s, 4, layouts=('before',), pretties=(True,), kmax=2, full=False, names=K.HOSTILE_NAMES)
+    K.story_grid(s, 4, layouts=('before',), pretties=(True,), kmax=2, full=False, names=K.HOSTILE_NAMES_B)
     K.item_grid(s, 4, pretties=(False,), kmax=2, full=False, inters=(True,), item_names=K.HOSTILE_NAMES)
+    K.item_grid(s, 4, pretties=(False,), kmax=2, full=False, inters=(True,), item_names=K.HOSTILE_NAMES_B)
     K.story_grid(s, 3, layouts=('before',), pretties=(False,), kmax=2, full=False, names=K.LONG_NAMES)
     K.item_grid(s, 3, pretties=(False,), kmax=2, full=False, inters=(False,), item_names=K.LONG_NAMES)
     K.item_grid(s, 3, pretties=(False,), full=False, inters=(False,))
